@@ -23,7 +23,7 @@ pub struct C01;
 
 pub fn cfg() -> AspCfg {
     AspCfg {
-        preds: vec![("p".into(), 1), ("q".into(), 1), ("r".into(), 2), ("s".into(), 0)],
+        preds: vec![("p".into(), 1), ("q".into(), 1), ("r".into(), 2), ("s".into(), 0), ("p".into(), 2)],
         // names that collide with the translator's fresh variables
         vars: vec!["X".into(), "Y".into(), "I".into(), "J".into(), "K".into(), "Q".into(), "R".into(), "Z".into(), "Z1".into(), "V1".into()],
         syms: vec!["a".into(), "b".into()],
@@ -143,7 +143,7 @@ impl Check for C01 {
     }
     fn strategy(&self, _tier: Tier) -> BoxedStrategy<Case> {
         let c = cfg();
-        (ga::shaped_program(&c, 1), g::raw_interp(4, 0, 2, 6))
+        (ga::shaped_program(&c, 1), g::raw_interp(5, 0, 2, 6))
             .prop_map(|(program, raw)| Case { program, raw })
             .boxed()
     }
